@@ -13,7 +13,7 @@ comp=ok
 for f in $(git -C $wt diff --name-only); do
   case $f in
     src/cpu-kernels/*.cpp) g++ -std=c++11 -O0 -fPIC -DVERSION_INFO=\"1.4.0\" -I$wt/include -c $wt/$f -o /dev/null 2>/dev/null || comp=FAIL;;
-    src/libawkward/*.cpp|src/libawkward/*/*.cpp) g++ -std=c++11 -fsyntax-only -DVERSION_INFO=\"1.4.0\" -I$wt/include $wt/$f 2>/dev/null || comp=FAIL;;
+    src/libawkward/*.cpp|src/libawkward/*/*.cpp) g++ -std=c++11 -fsyntax-only -DVERSION_INFO=\"1.4.0\" -I/verif/native/stub -I$wt/include $wt/$f 2>/dev/null || comp=FAIL;;
   esac
 done
 echo "clean_exit=$c patched_exit=$p compile=$comp"
